@@ -5,7 +5,7 @@ import os
 
 VERIF = os.path.dirname(os.path.dirname(os.path.abspath(__file__)))
 
-HOOK_COMMITS = []  # filled once the guarded hook is committed in /repo
+HOOK_COMMITS = ["86e593a"]  # filled once the guarded hook is committed in /repo
 
 CHECKS = {
     "C07": dict(
@@ -95,6 +95,15 @@ CHECKS["C06"] = dict(
     note="Reads the private _train_matrix of merged models (as the repository's test does). Skip-gram variable radii use the library's "
          "radius formula on independently computed frequencies.",
     ref="7/C06")
+
+CHECKS["C15"] = dict(
+    technique="property-based testing (Hypothesis) against dense walk counting on parent arrays; orientation algebra; differential against TokenCooccurrenceVectorizer on chains",
+    text="Generated forests (chains, stars, random trees, isolated nodes; CSR / LIL / shared LIL adjacency), kernels with offset / "
+         "normalize / power, all four orientations, pruning with and without mask and nullify_mask; fit_transform and transform of a second "
+         "forest are compared cell by cell with sum_k w_k A^k accumulated by label after an independent contraction of removed nodes; "
+         "before/after/symmetric/directional are checked against each other, and chains against the sequence vectorizer. Exploration.",
+    note="The chain equivalence is asserted without kernel normalisation (the two vectorizers normalise over different windows by design).",
+    ref="7/C15")
 
 PENDING_REASON = "check not built yet in this revision of /verif (planned, see DESIGN.md section 7)"
 
